@@ -442,7 +442,18 @@ fn gen_project(idx: usize, rng: &mut Rng) -> (Project, Layout) {
       }
     }
   }
-  let files: Vec<(String, String)> = files.into_iter().map(|(p, c, _)| (p, c)).collect();
+  let mut files: Vec<(String, String)> = files.into_iter().map(|(p, c, _)| (p, c)).collect();
+  // an HTML page that embeds JavaScript under every name the language has (`<script>`, `lang="js"`,
+  // `lang="javascript"`): each script is a document of its own, all of them are searched, in
+  // every process
+  if let Some(r) = rules.iter().find(|r| r.lang == "JavaScript") {
+    let h = |i: usize| r.hits[i % r.hits.len()].clone();
+    files.push((
+      "web/names.html".to_string(),
+      format!("<p>names</p>\n<script>\n{}\n</script>\n<script lang=\"javascript\">{}</script>\n<script lang=\"js\">\n  {}\n</script>\n", h(0), h(1), h(2)),
+    ));
+  }
+  let nfiles = files.len();
   let ngroups = 1 + rng.below(nrules);
   let mut groups: Vec<(String, Vec<usize>)> = (0..ngroups).map(|k| (format!("rules/r{k}.yml"), vec![])).collect();
   for i in 0..nrules {
